@@ -40,6 +40,7 @@ func FmapCh(f func(int) <-chan int, in <-chan int) <-chan (<-chan int) { return 
 func JoinCC(in <-chan (<-chan int)) <-chan int          { return deriveJoinCC(in) }
 func JoinSC(in []<-chan int) <-chan int                 { return deriveJoinSC(in) }
 func JoinV2(c0, c1 <-chan int) <-chan int               { return deriveJoinV2(c0, c1) }
+func JoinV5(c0, c1, c2, c3, c4 <-chan int) <-chan int   { return deriveJoinV5(c0, c1, c2, c3, c4) }
 func Pipeline(f func(int) <-chan int, g func(int) <-chan int) func(int) <-chan int {
 	return derivePipelineP(f, g)
 }
@@ -58,11 +59,19 @@ const pkgB = `package concpkgb
 func JoinCCb(in chan (<-chan int)) <-chan int  { return deriveJoinCCb(in) }
 func JoinSCb(in []chan int) <-chan int         { return deriveJoinSCb(in) }
 func JoinV3(c0, c1, c2 chan int) <-chan int    { return deriveJoinV3(c0, c1, c2) }
+func JoinV6(c0, c1, c2, c3, c4, c5 chan int) <-chan int {
+	return deriveJoinV6(c0, c1, c2, c3, c4, c5)
+}
 func DupB(c chan int) (<-chan int, <-chan int) { return deriveDupB(c) }
 
 // a second package with two Do calls of different arities, the larger one first
 func Do3b(f0, f1, f2 func() (int, error)) (int, int, int, error) { return deriveDo3b(f0, f1, f2) }
 func Do2b(f0, f1 func() (int, error)) (int, int, error)         { return deriveDo2b(f0, f1) }
+
+// functions of different result types
+func Do3m(f0 func() (int, error), f1 func() (int64, error), f2 func() (string, error)) (int, int64, string, error) {
+	return deriveDo3m(f0, f1, f2)
+}
 `
 
 const vsMain = `package main
@@ -81,12 +90,16 @@ func main() {
 		Dup:      map[string]func(conc.VC) (conc.VC, conc.VC){"DupR": a.DupR, "DupB": b.DupB},
 		JoinCC:   map[string]func(*vsched.Chan[conc.VC]) conc.VC{"JoinCC": a.JoinCC, "JoinCCb": b.JoinCCb},
 		JoinSC:   map[string]func([]conc.VC) conc.VC{"JoinSC": a.JoinSC, "JoinSCb": b.JoinSCb},
-		JoinV2:   a.JoinV2,
-		JoinV3:   b.JoinV3,
+		JoinV: map[string]func([]conc.VC) conc.VC{
+			"JoinV2": func(c []conc.VC) conc.VC { return a.JoinV2(c[0], c[1]) },
+			"JoinV3": func(c []conc.VC) conc.VC { return b.JoinV3(c[0], c[1], c[2]) },
+			"JoinV5": func(c []conc.VC) conc.VC { return a.JoinV5(c[0], c[1], c[2], c[3], c[4]) },
+			"JoinV6": func(c []conc.VC) conc.VC { return b.JoinV6(c[0], c[1], c[2], c[3], c[4], c[5]) }},
 		Pipeline: a.Pipeline,
 		Do2:      map[string]func(f0, f1 func() (int, error)) (int, int, error){"Do2": a.Do2, "Do2b": b.Do2b},
-		Do3:      map[string]func(f0, f1, f2 func() (int, error)) (int, int, int, error){"Do3": a.Do3, "Do3b": b.Do3b},
-		Do4:      a.Do4,
+		Do3: map[string]func(f0, f1, f2 func() (int, error)) (int, int, int, error){"Do3": a.Do3, "Do3b": b.Do3b,
+			"Do3m": func(f0, f1, f2 func() (int, error)) (int, int, int, error) { return conc.Mixed3(b.Do3m, f0, f1, f2) }},
+		Do4: a.Do4,
 	})
 }
 `
@@ -118,13 +131,68 @@ func main() {
 				}
 				return a.JoinSC(r)
 			}, "JoinSCb": b.JoinSCb},
-		JoinV2:   func(c0, c1 chan int) <-chan int { return a.JoinV2(c0, c1) },
-		JoinV3:   b.JoinV3,
+		JoinV: map[string]func([]chan int) <-chan int{
+			"JoinV2": func(c []chan int) <-chan int { return a.JoinV2(c[0], c[1]) },
+			"JoinV3": func(c []chan int) <-chan int { return b.JoinV3(c[0], c[1], c[2]) },
+			"JoinV5": func(c []chan int) <-chan int { return a.JoinV5(c[0], c[1], c[2], c[3], c[4]) },
+			"JoinV6": func(c []chan int) <-chan int { return b.JoinV6(c[0], c[1], c[2], c[3], c[4], c[5]) }},
 		Pipeline: a.Pipeline,
 		Do2:      map[string]func(f0, f1 func() (int, error)) (int, int, error){"Do2": a.Do2, "Do2b": b.Do2b},
-		Do3:      map[string]func(f0, f1, f2 func() (int, error)) (int, int, int, error){"Do3": a.Do3, "Do3b": b.Do3b},
-		Do4:      a.Do4,
+		Do3: map[string]func(f0, f1, f2 func() (int, error)) (int, int, int, error){"Do3": a.Do3, "Do3b": b.Do3b,
+			"Do3m": func(f0, f1, f2 func() (int, error)) (int, int, int, error) { return conc.Mixed3(b.Do3m, f0, f1, f2) }},
+		Do4: a.Do4,
 	})
+}
+`
+
+// A conditional probe (C20): argument functions whose second result is a custom error type.  The current
+// generator refuses them; if a generator accepts them, the emitted Do must still return a nil error when
+// every function succeeded (a typed nil pointer stored in an error variable is NOT nil).
+const probeMod = `module concprobe
+
+go 1.24
+`
+
+const probePkg = `package probepkg
+
+type NotFound struct{ ID int }
+
+func (e *NotFound) Error() string { return "not found" }
+
+func DoP(f0 func() (int, *NotFound), f1 func() (int, error)) (int, int, error) { return deriveDoP(f0, f1) }
+`
+
+const probeMain = `package main
+
+import (
+	"concprobe/probepkg"
+	"errors"
+	"fmt"
+	"os"
+)
+
+func main() {
+	bad := 0
+	v0, v1, err := probepkg.DoP(func() (int, *probepkg.NotFound) { return 7, nil }, func() (int, error) { return 8, nil })
+	if err != nil {
+		fmt.Printf("VIOLATED: both functions succeeded (f0 returned (7, (*NotFound)(nil)), f1 (8, nil)) but Do returned the non-nil error %#v\n", err)
+		bad++
+	}
+	if v0 != 7 || v1 != 8 {
+		fmt.Printf("VIOLATED: values (%d, %d), want (7, 8)\n", v0, v1)
+		bad++
+	}
+	nf := &probepkg.NotFound{ID: 3}
+	other := errors.New("other")
+	_, _, err = probepkg.DoP(func() (int, *probepkg.NotFound) { return 0, nf }, func() (int, error) { return 0, other })
+	if err != error(nf) && err != other {
+		fmt.Printf("VIOLATED: the error returned (%v) is none of the errors the functions returned\n", err)
+		bad++
+	}
+	if bad > 0 {
+		os.Exit(1)
+	}
+	fmt.Println("probe ok")
 }
 `
 
@@ -215,6 +283,19 @@ func main() {
 			fmt.Fprintf(os.Stderr, "genconc: rewriting onto vsched: %v\n", err)
 			os.Exit(5)
 		}
+	}
+	// conditional probe: custom error result types
+	pdir := filepath.Join(*work, "probe")
+	write(filepath.Join(pdir, "go.mod"), probeMod)
+	write(filepath.Join(pdir, "probepkg", "p.go"), probePkg)
+	pc := exec.Command(*goderive, "./probepkg")
+	pc.Dir = pdir
+	pout, perr := pc.CombinedOutput()
+	if perr != nil {
+		write(filepath.Join(*work, "probe.txt"), "refused\n"+string(pout))
+	} else {
+		write(filepath.Join(pdir, "main.go"), probeMain)
+		write(filepath.Join(*work, "probe.txt"), "accepted\n")
 	}
 	write(filepath.Join(*work, "cmd", "vsrun", "main.go"), vsMain)
 	write(filepath.Join(*work, "cmd", "racerun", "main.go"), raceMain)
